@@ -62,12 +62,26 @@ class C01Tracker(SslTracker):
             state[("E", tag)] = "fail"
         return state
 
+    encoders = frozenset()
+
+    def on_call(self, ps, node, state, argvals):
+        # typestate 'alerted': an alert/flight encoder is entered with ssl->err set after a failed
+        # record open / MAC check (recorded before the callee's summary is applied)
+        if node.get("fn") in self.encoders and \
+                (state.get(("E", "dec")) == "fail" or state.get(("E", "mac")) == "fail") and \
+                not av.possible_value(state.get(K_ERR, av.TOP), self.c["SSL_ALERT_NONE"]):
+            st = dict(state)
+            st[("E", "alerted")] = 1
+            return [(s2, v) for (s2, v) in ps.apply_call(node, st, argvals)]
+        return None
+
     def after_call(self, ps, node, state, val):
         # a new record open invalidates the typestate of the previous one
         t = self.call_tag(ps, node)
         if t is not None:
             state = dict(state)
             state[("E", t)] = "untested"
+            state.pop(("E", "alerted"), None)
         return state
 
     def join_event(self, key, a, b):
